@@ -122,6 +122,8 @@ func c17bRunMode(t *testing.T, p c17bPlan, mode string) (res vfResult) {
 						return vfRolloutSet(r, "svc", 100, nil)
 					case "rollout-stop":
 						return vfRolloutStop(r, "svc")
+					case "remove":
+						return vfRemove(r, "svc")
 					}
 					return nil
 				})
@@ -170,6 +172,10 @@ func c17bRunMode(t *testing.T, p c17bPlan, mode string) (res vfResult) {
 				if op == "deploy" || op == "rollout-deploy" {
 					class = "targets-deployed-meanwhile"
 				}
+				if op == "remove" {
+					class = "removed-meanwhile"
+					break
+				}
 			}
 			shape = fmt.Sprintf("%s-held|%s", p.Cmds[hi].Op, class)
 			res.label("meanwhile:" + strings.Join(vfUniq(meanwhile), "+"))
@@ -206,9 +212,13 @@ func c17bRunMode(t *testing.T, p c17bPlan, mode string) (res vfResult) {
 			return
 		}
 		var saved []c17bSaved
-		if err := json.Unmarshal(raw, &saved); err != nil || len(saved) != 1 {
+		removed := p.Cmds[len(p.Cmds)-1].Op == "remove"
+		if err := json.Unmarshal(raw, &saved); err != nil || len(saved) != 1 && !(removed && len(saved) <= 1) {
 			res.failf("state-file", "state file: %v (%d services)", err, len(saved))
 			return
+		}
+		if len(saved) == 0 {
+			saved = []c17bSaved{{Name: "svc"}} // removed: the service owns nothing
 		}
 		owned := map[string]bool{}
 		for _, n := range append(append([]string{}, saved[0].ActiveTargets...), saved[0].RolloutTargets...) {
@@ -243,7 +253,7 @@ func c17bRunMode(t *testing.T, p c17bPlan, mode string) (res vfResult) {
 			}
 		}
 		// traffic
-		for i := 0; i < 4 && mode == "C10"; i++ {
+		for i := 0; i < 4 && mode == "C10" && !removed; i++ {
 			for _, cookie := range []bool{false, true} {
 				req := vfNewRequest("GET", "svc.test", "/x", &vfCtl{ID: fmt.Sprintf("q%d", i)}, nil)
 				if cookie {
@@ -318,6 +328,11 @@ func c17bCases(yield func(c17bPlan) bool) {
 		}
 		for _, op := range ops {
 			if !rec(append(append([]string{}, prefix...), op), n) {
+				return false
+			}
+		}
+		if len(prefix) == n-1 { // `remove` as the last command: afterwards nothing of the service may be probed
+			if !rec(append(append([]string{}, prefix...), "remove"), n) {
 				return false
 			}
 		}
